@@ -39,6 +39,7 @@ type PropRec struct {
 
 // FinRec is one Finalize call.
 type FinRec struct {
+	Own  []VoteRec `json:"own_durable_precommits,omitempty"` // the finalizer's own precommits in its WAL at that moment
 	Seq  int64  `json:"seq"`
 	Node int    `json:"node"`
 	Gen  int    `json:"incarnation"`
@@ -330,7 +331,15 @@ func (m *Monitor) onFinalize(inc *Inc, h int64, id []byte) {
 	// quorum-before-finalize: > 2n/3 distinct validators precommitted exactly
 	// this block (id and part set) in one round, among signed precommits that
 	// were on the wire before this call
-	if !m.quorumFor(h, rec.ID, seq) {
+	// the finalizing validator's own precommit counts once it is signed and in
+	// its WAL, even if a crash kept it from ever reaching the wire
+	own := m.ownDurablePrecommits(inc, h)
+	for i := range m.fins {
+		if m.fins[i].Seq == seq {
+			m.fins[i].Own = own
+		}
+	}
+	if !m.quorumFor(h, rec.ID, seq, own) {
 		m.violate("finalize-without-quorum", map[string]interface{}{
 			"finalize": rec, "n": m.c.N, "precommits_at_height": m.votesAt(h, 1),
 			"explanation": "no round has precommits for this block from more than 2n/3 distinct validators among the signed precommits seen on the wire before the Finalize call",
@@ -338,13 +347,38 @@ func (m *Monitor) onFinalize(inc *Inc, h int64, id []byte) {
 	}
 }
 
-func (m *Monitor) quorumFor(h int64, id string, before int64) bool {
+// ownDurablePrecommits parses the validator's round WAL records (written by
+// this incarnation or inherited from the crash image) for its own precommits
+// at height h. Caller holds m.mu; WalX has its own lock.
+func (m *Monitor) ownDurablePrecommits(inc *Inc, h int64) []VoteRec {
+	var out []VoteRec
+	inc.Wal.WrittenPayloads("round", func(p []byte) {
+		if len(p) < 2 || binary.BigEndian.Uint16(p) != uint16(consensus.ProtoVote) {
+			return
+		}
+		msg, err := consensus.UnmarshalMessage(uint16(consensus.ProtoVote), p[2:])
+		if err != nil {
+			return
+		}
+		v, ok := msg.(*consensus.VoteMessage)
+		if !ok || v.Height != h || v.Type != consensus.VoteTypePrecommit {
+			return
+		}
+		if rec, ok := m.voteRec(inc.Idx, v, 0, false); ok && rec.Signer == inc.Idx {
+			out = append(out, rec)
+		}
+	})
+	return out
+}
+
+func (m *Monitor) quorumFor(h int64, id string, before int64, extra []VoteRec) bool {
 	type grp struct {
 		r    int32
 		psid string
 	}
 	cnt := map[grp]map[int]bool{}
-	for _, v := range m.votes {
+	all := append(append([]VoteRec(nil), m.votes...), extra...)
+	for _, v := range all {
 		if v.H != h || v.Type != 1 || v.BlockID != id || v.Seq >= before || v.Signer < 0 {
 			continue
 		}
@@ -572,7 +606,7 @@ func (m *Monitor) Summary() *Summary {
 		// offline quorum: recount with a different grouping (per round, signer set intersected with block id + psid)
 		best := 0
 		rounds := map[int32]map[string]map[int]bool{}
-		for _, v := range m.votes {
+		for _, v := range append(append([]VoteRec(nil), m.votes...), f.Own...) {
 			if v.H == f.H && v.Type == 1 && v.Seq < f.Seq && v.BlockID == f.ID && v.Signer >= 0 {
 				if rounds[v.R] == nil {
 					rounds[v.R] = map[string]map[int]bool{}
